@@ -161,7 +161,10 @@ func smudgeCommand(cmd *cobra.Command, args []string) {
 		if errors.IsNotAPointerError(err) {
 			fmt.Fprintln(os.Stderr, err.Error())
 		} else {
+			// Nothing usable was written; an exit status of zero would
+			// make Git take the (empty) output for the file's content.
 			Error(err.Error())
+			os.Exit(2)
 		}
 	} else if possiblyMalformedObjectSize(n) {
 		fmt.Fprintln(os.Stderr, tr.Tr.Get("Possibly malformed smudge on Windows: see `git lfs help smudge` for more info."))
